@@ -8,6 +8,7 @@ import attr
 
 import asn1crypto
 
+from cryptodatahub.common.exception import InvalidValue
 from cryptodatahub.common.key import PublicKeyX509Base
 from cryptodatahub.common.stores import CertificateTransparencyLog, CertificateTransparencyLogParamsBase
 
@@ -77,6 +78,10 @@ class SignedCertificateTimestamp(ParsableBase, Serializable):
         body_parser.parse_parsable('extensions', CtExtensions)
         body_parser.parse_parsable('signature_algorithm', TlsSignatureAndHashAlgorithmFactory)
         body_parser.parse_parsable('signature', CtSignature)
+
+        if body_parser['timestamp'] is None:
+            # the all-ones "no timestamp" sentinel of parse_timestamp is not a point in time an SCT can carry
+            raise InvalidValue(bytes(header_parser['sct'][33:41]), cls, 'timestamp')
 
         return cls(**body_parser), header_parser.parsed_length
 
